@@ -95,6 +95,7 @@ class CFG(object):
         self.succ = {}
         self.pred = {}
         self.exc_edges = set()
+        self.raise_nodes = set()     # explicit ``raise`` statements: their exceptional edge is definite
         self.entry = self._new('entry')
         self.exit = self._new('exit')
         self.raise_exit = self._new('raise')
@@ -221,6 +222,7 @@ class CFG(object):
             return []
         if isinstance(st, ast.Raise):
             self._raise_edge(n, ctx)
+            self.raise_nodes.add(n)
             return []
         if isinstance(st, (ast.Break, ast.Continue)):
             kind = 'break' if isinstance(st, ast.Break) else 'continue'
@@ -286,9 +288,10 @@ class CFG(object):
     def handler_nodes(self, handler):
         return [n.id for n in self.nodes if n.kind == 'handler' and n.handler is handler]
 
-    def reach(self, srcs, avoid=(), include_src=True, normal_only=False):
+    def reach(self, srcs, avoid=(), include_src=True, normal_only=False, exc_from=()):
         """Nodes reachable from srcs without entering ``avoid``.  With include_src=False a source
-        is only in the result if it lies on a cycle.  normal_only: do not follow raise edges."""
+        is only in the result if it lies on a cycle.  normal_only: do not follow raise edges,
+        except those leaving a node of ``exc_from`` (the statements assumed able to raise)."""
         avoid = set(avoid)
         seen = set()
         todo = [s for s in srcs if s not in avoid]
@@ -299,7 +302,7 @@ class CFG(object):
             for m in self.succ[n]:
                 if m in avoid or m in seen:
                     continue
-                if normal_only and (n, m) in self.exc_edges:
+                if normal_only and (n, m) in self.exc_edges and n not in exc_from and n not in self.raise_nodes:
                     continue
                 seen.add(m)
                 todo.append(m)
@@ -321,14 +324,14 @@ class CFG(object):
     def reachable(self, node):
         return node in self.reach([self.entry])
 
-    def must_pass(self, through, src=None, dst=None):
+    def must_pass(self, through, src=None, dst=None, normal_only=False, exc_from=()):
         """Every path src->dst visits a node of ``through`` (vacuously true if dst unreachable)."""
         src = self.entry if src is None else src
         dst = self.exit if dst is None else dst
         srcs = src if isinstance(src, (list, set, tuple)) else [src]
         dsts = dst if isinstance(dst, (list, set, tuple)) else [dst]
         through = set(through)
-        r = self.reach([s for s in srcs], avoid=through)
+        r = self.reach([s for s in srcs], avoid=through, normal_only=normal_only, exc_from=exc_from)
         return not any(d in r for d in dsts if d not in through)
 
     def between(self, a_nodes, b_nodes):
